@@ -62,4 +62,11 @@ RecoveredAhead == [][(bEpoch' # bEpoch /\ bEpoch' # bEpoch + 1) => \A p \in Prox
 Converges == (stopped /\ bEpoch = MaxEpoch) ~> (\A p \in Proxies : pEpoch[p] = bEpoch)
 \* a proxy never holds an epoch the broker never served (sanity)
 NeverAhead == \A p \in Proxies : pEpoch[p] <= MaxEpoch
+\* DESIGN OBSERVATION (outside the listed properties, kept as an expected counterexample: ControlPlane_MC_obs.cfg):
+\* epoch recovery looks at the epochs the proxies HOLD.  A message of the lost history that is still in flight (a delayed or
+\* duplicated SETCLUSTER) can arrive after the recovery and put a proxy AHEAD of the recovered broker; the proxy then answers
+\* OLD_EPOCH (which the coordinator takes for success) to everything the broker serves until the broker's epoch has caught up.
+\* C13 quantifies over installed epochs at recovery time and C07 over message faults without broker loss, so neither
+\* property is violated; the combination is what this invariant shows.
+NotAhead == \A p \in Proxies : pEpoch[p] <= bEpoch
 =============================================================================
